@@ -29,7 +29,8 @@ CONSTANTS B,            \* base price; prices are B + offset (B = 20000: 0.015 %
           MaxDepth,     \* bound on the number of actions
           MaxOrd,       \* bound on orders in the storage of one cycle
           MultiPoint,   \* entry menu contains a two-point entry
-          PartialTP,    \* exit menu contains a partial take-profit next to a full-size stop
+          Oversize,     \* menus contain exits larger than the position can be when they fill: a full-size stop next to a
+                        \* partial take-profit, full-size exits declared with a two-point entry
           WrongSide,    \* exit menu contains a stop on the wrong side of the entry (market replacement)
           EditLevel,    \* 0: no edits after the entry decision, 1: a few, 2: the whole menu
           RepairedReplacement,   \* proposed fix: the replacement order is reduce-only
@@ -144,10 +145,13 @@ Tot(rows) == SeqSum([i \in DOMAIN rows |-> rows[i][1]])
 EntryMenu(c, sg) == {Rows1(1, c), Rows1(2, c - 4 * sg), Rows1(1, c + 4 * sg)}
                     \cup (IF MultiPoint THEN {Rows2(1, c, 1, c - 4 * sg)} ELSE {})
 \* <<stop_loss, take_profit>> set in go_long / go_short for a planned total
-GoExitMenu(c, sg, tot) ==
-  {<<None, None>>, <<Decl(Rows1(tot, c - 6 * sg)), Decl(Rows1(tot, c + 6 * sg))>>}
-  \cup (IF PartialTP /\ tot >= 2 THEN {<<Decl(Rows1(tot, c - 6 * sg)), Decl(Rows2(1, c + 4 * sg, tot - 1, c + 8 * sg))>>} ELSE {})
-  \cup (IF WrongSide THEN {<<Decl(Rows1(tot, c + 2 * sg)), None>>, <<Decl(Rows1(tot, c - 6 * sg)), Decl(Rows1(tot, c - 2 * sg))>>} ELSE {})
+GoExitMenu(c, sg, rows) ==
+  LET tot == Tot(rows)
+      full == <<Decl(Rows1(tot, c - 6 * sg)), Decl(Rows1(tot, c + 6 * sg))>>
+  IN {<<None, None>>}
+     \cup (IF Len(rows) = 1 \/ Oversize THEN {full} ELSE {})
+     \cup (IF Oversize /\ tot >= 2 THEN {<<Decl(Rows1(tot, c - 6 * sg)), Decl(Rows2(1, c + 4 * sg, tot - 1, c + 8 * sg))>>} ELSE {})
+     \cup (IF WrongSide THEN {<<Decl(Rows1(tot, c + 2 * sg)), None>>, <<Decl(Rows1(tot, c - 6 * sg)), Decl(Rows1(tot, c - 2 * sg))>>} ELSE {})
 \* edits of an open position, in the order of a menu; the user picks entry k (0 = no edit) when the hook runs
 EditSeq(S, hook) ==
   LET c == S.cur sg == Sg(S) a == SAbs(S.q) IN
@@ -155,7 +159,7 @@ EditSeq(S, hook) ==
   \o (IF EditLevel >= 1 /\ hook = "open" /\ ~S.d.sl.has /\ ~S.d.tp.has THEN << <<"both", Decl(Rows1(a, c - 6 * sg))>> >> ELSE <<>>)
   \o (IF EditLevel >= 1 /\ hook = "red" THEN << <<"sl", Decl(Rows1(a, c - 4 * sg))>> >> ELSE <<>>)
   \o (IF EditLevel >= 2 /\ hook = "update"
-      THEN << <<"sl", Decl(Rows1(a, c - 2 * sg))>>, <<"tp", Decl(Rows2(1, c + 4 * sg, a, c + 8 * sg))>> >> ELSE <<>>)
+      THEN << <<"sl", Decl(Rows1(a, c - 2 * sg))>>, <<"tp", IF a >= 2 THEN Decl(Rows2(1, c + 4 * sg, a - 1, c + 8 * sg)) ELSE Decl(Rows1(a, c + 8 * sg))>> >> ELSE <<>>)
   \o (IF EditLevel >= 2 /\ hook = "inc" THEN << <<"tp", Decl(Rows1(a, c + 6 * sg))>>, <<"sl", Decl(Rows1(a, c - 6 * sg))>> >> ELSE <<>>)
   \o (IF EditLevel >= 2 /\ hook = "red" THEN << <<"tp", Decl(Rows1(a, c + 6 * sg))>> >> ELSE <<>>)
 MaxEdit == IF EditLevel = 0 THEN 0 ELSE IF EditLevel = 1 THEN 2 ELSE 4
@@ -294,7 +298,7 @@ Fill(i, k) == /\ Alive /\ QuietPc /\ Depth
               /\ i \in Active(st) /\ st.ords[i].type # "MARKET"
               /\ st' = NoChain(FillOrder([Z(st) EXCEPT !.cur = st.ords[i].p], i, k))
               /\ pc' = "idle"
-              /\ hist' = Rec(<<"fill", i, k>>, st')
+              /\ hist' = LET o == st.ords[i] IN Rec(<<"fill", i, k, <<o.side, o.type, o.q, o.p, o.ro, o.via>> >>, st')
 
 \* _execute / _check, first part: entry-cancellation rule, update_position, detection
 StepA(ans, k) ==
@@ -326,7 +330,7 @@ FlushOne(k) ==
 SgOf(sd) == IF sd = "long" THEN 1 ELSE -1
 Decisions(S) ==
   {<<"none", <<>>, <<None, None>>>>} \cup
-  UNION {UNION {{<<sd, rows, ex>> : ex \in GoExitMenu(S.cur, SgOf(sd), Tot(rows))} : rows \in EntryMenu(S.cur, SgOf(sd))}
+  UNION {UNION {{<<sd, rows, ex>> : ex \in GoExitMenu(S.cur, SgOf(sd), rows)} : rows \in EntryMenu(S.cur, SgOf(sd))}
          : sd \in {"long", "short"}}
 StepB(dec) ==
   /\ Alive /\ pc = "mid" /\ st.queue = <<>>
@@ -414,6 +418,39 @@ TradeFaithful == st.g.trade.closed =>
 WalletIdentity == st.g.cycClosed => st.g.trade.closed /\ st.g.trade.pnl = st.g.walAtClose
 FlatAtEnd == st.done => st.q = 0 /\ Active(st) = {}
 NoLivelock == st.chain <= 5
+\* ---- non-vacuity witnesses: each W_* must be REACHABLE in the clean instance, i.e. TLC must report the
+\* invariant NotW_* as violated (otherwise an invariant above holds vacuously and the check refuses to run)
+SubsHave(P(_)) == \E j \in DOMAIN st.g.subs : P(st.g.subs[j])
+W_CancelYes == st.g.rule.had /\ st.g.rule.ans
+W_CancelNo == st.g.rule.had /\ ~st.g.rule.ans
+W_BothExitsAtAfter == pc = "after" /\ st.q # 0 /\ ActiveVia(st, "stop-loss") # <<>> /\ ActiveVia(st, "take-profit") # <<>>
+W_ExitReplacedByEdit == SubsHave(LAMBDA s : s.kind \in {"sl", "tp"} /\ ~s.inOpen) /\ pc = "mid"
+W_EntryStop == SubsHave(LAMBDA s : s.kind = "entry" /\ s.o.type = "STOP")
+W_EntryLimit == SubsHave(LAMBDA s : s.kind = "entry" /\ s.o.type = "LIMIT")
+W_EntryMarket == SubsHave(LAMBDA s : s.kind = "entry" /\ s.o.type = "MARKET")
+W_ExitStop == SubsHave(LAMBDA s : s.kind = "sl" /\ s.o.type = "STOP")
+W_ExitLimit == SubsHave(LAMBDA s : s.kind = "tp" /\ s.o.type = "LIMIT")
+W_ExitMarket == SubsHave(LAMBDA s : s.kind \in {"sl", "tp"} /\ s.o.type = "MARKET")
+W_ShortCycle == st.g.trade.closed /\ st.g.trade.side = "short"
+W_LongCycle3 == st.g.trade.closed /\ st.g.trade.side = "long" /\ Len(st.g.trade.cyc) >= 3
+W_Reduced == \E j \in DOMAIN st.g.fills : st.g.fills[j].hooks[1][1] = "red"
+W_ForcedClose == pc = "term2"
+W_FlatAfterCloseWithCancel == st.g.cycClosed /\ st.ords = <<>>
+NotW_CancelYes == ~W_CancelYes
+NotW_CancelNo == ~W_CancelNo
+NotW_BothExitsAtAfter == ~W_BothExitsAtAfter
+NotW_ExitReplacedByEdit == ~W_ExitReplacedByEdit
+NotW_EntryStop == ~W_EntryStop
+NotW_EntryLimit == ~W_EntryLimit
+NotW_EntryMarket == ~W_EntryMarket
+NotW_ExitStop == ~W_ExitStop
+NotW_ExitLimit == ~W_ExitLimit
+NotW_ExitMarket == ~W_ExitMarket
+NotW_ShortCycle == ~W_ShortCycle
+NotW_LongCycle3 == ~W_LongCycle3
+NotW_Reduced == ~W_Reduced
+NotW_ForcedClose == ~W_ForcedClose
+NotW_FlatAfterCloseWithCancel == ~W_FlatAfterCloseWithCancel
 \* export of behaviours for the replay (simulation mode): one line per state at the depth bound / after termination
 EmitHist == (Len(hist) >= MaxDepth \/ st.done \/ st.g.crashed) => PrintT(<<"HIST", ToJson(hist)>>)
 NoCrash == ~st.g.crashed
